@@ -7,6 +7,12 @@ pub mod c04;
 pub mod c05;
 pub mod c06;
 pub mod c07;
+pub mod c08;
 pub mod c09;
+pub mod c10;
+pub mod c12;
 pub mod c13;
 pub mod c14;
+pub mod c15;
+pub mod c18;
+pub mod c20;
